@@ -1230,7 +1230,6 @@ class Timezone(Component):
         """
         zone = self.tz_name
         transitions = []
-        dst = {}
         tznames = set()
         for component in self.walk():
             if type(component) == Timezone:
@@ -1252,14 +1251,18 @@ class Timezone(Component):
                          f"{component['TZOFFSETTO'].to_ical()}"
                 tzname = self._make_unique_tzname(tzname, tznames)
 
-            dst[tzname], component_transitions = self._extract_offsets(
+            is_dst, component_transitions = self._extract_offsets(
                 component, tzname
             )
-            transitions.extend(component_transitions)
+            # STANDARD and DAYLIGHT can have the same TZNAME:
+            # every transition knows on its own whether it is to dst
+            transitions.extend(
+                transition + (is_dst,) for transition in component_transitions
+            )
 
         transitions.sort()
         transition_times = [
-            transtime - osfrom for transtime, osfrom, _, _ in transitions
+            transtime - osfrom for transtime, osfrom, _, _, _ in transitions
         ]
 
         # transition_info is a list with tuples in the format
@@ -1271,14 +1274,14 @@ class Timezone(Component):
         # each index, computed once instead of searching for every transition
         next_standard = [None] * (len(transitions) + 1)
         for index in range(len(transitions) - 1, -1, -1):
-            if not dst[transitions[index][3]]:  # [3] is the name
+            if not transitions[index][4]:  # [4] is is_dst
                 next_standard[index] = transitions[index][2]  # [2] is osto
             else:
                 next_standard[index] = next_standard[index + 1]
         previous_standard = None
-        for num, (transtime, osfrom, osto, name) in enumerate(transitions):
+        for num, (transtime, osfrom, osto, name, is_dst) in enumerate(transitions):
             dst_offset = False
-            if not dst[name]:
+            if not is_dst:
                 dst_offset = timedelta(seconds=0)
                 previous_standard = osto
             else:
